@@ -47,11 +47,12 @@ type Solver struct {
 	dead      bool
 	nq        int
 
-	Queries    int
-	Retries    int
-	TimeNs     int64
-	popPending bool
-	LogFile    *os.File
+	Queries      int
+	Retries      int
+	TimeNs       int64
+	popPending   bool
+	resetPending bool
+	LogFile      *os.File
 }
 
 var solverSpawned int64
@@ -151,9 +152,14 @@ func (s *Solver) check1(body string, vars []*Term, oneShot bool) (SatResult, Mod
 		s.start()
 	}
 	s.nq++
+	if !s.isCVC5() && s.nq%400 == 0 {
+		// bound whatever state the solver accumulates across push/pop scopes
+		fmt.Fprintf(s.in, "(reset)\n(set-option :produce-models true)\n(set-option :timeout %d)\n", s.timeoutMs)
+	}
 	marker := fmt.Sprintf("<<done-%d>>", s.nq)
 	var sb strings.Builder
 	s.popPending = false
+	s.resetPending = oneShot
 	if oneShot {
 		sb.WriteString("(reset)\n(set-option :produce-models true)\n")
 		fmt.Fprintf(&sb, "(set-option :timeout %d)\n", s.timeoutMs)
@@ -203,6 +209,9 @@ func (s *Solver) check1(body string, vars []*Term, oneShot bool) (SatResult, Mod
 		}
 		gv.WriteString("))\n")
 		fmt.Fprintf(&gv, "(echo \"%s-gv\")\n", marker)
+		if s.LogFile != nil {
+			fmt.Fprintf(s.LogFile, "%s", gv.String())
+		}
 		io.WriteString(s.in, gv.String())
 		vl, ok := s.readUntil(marker+"-gv", 20*time.Second)
 		if !ok {
@@ -230,8 +239,16 @@ func (s *Solver) check1(body string, vars []*Term, oneShot bool) (SatResult, Mod
 func (s *Solver) finish() {
 	if s.popPending && !s.dead {
 		io.WriteString(s.in, "(pop 1)\n")
+		if s.LogFile != nil {
+			fmt.Fprintf(s.LogFile, "(pop 1)\n")
+		}
+	}
+	if s.resetPending && !s.dead {
+		// a one-shot query leaves its assertions at the base level: wipe them
+		fmt.Fprintf(s.in, "(reset)\n(set-option :produce-models true)\n(set-option :timeout %d)\n", s.timeoutMs)
 	}
 	s.popPending = false
+	s.resetPending = false
 }
 
 func parseLit(l string) uint64 {
